@@ -136,4 +136,49 @@ def firstBad {V : Type} [DecidableEq V] (maxsize : Int) (s : SpecSt V) (i : Nat)
                   ++ (if lossOk maxsize s o then [] else ["loss"]) ++ (if gainOk s o then [] else ["gain"])
                   ++ (if orderOk s o then [] else ["order"]))
 
+/-! ### history-level notions used in theorem statements (not evaluated by the driver) -/
+
+/-- spec bookkeeping after a whole observed history -/
+def specAfter {V : Type} (s : SpecSt V) : List (Obs V) → SpecSt V
+  | [] => s
+  | o :: rest => specAfter (s.next o) rest
+
+/-- the clock values a call reads, in program order -/
+def lastTime {V : Type} (T : Time) : Op V → Time
+  | .get _ now => now
+  | .set _ _ _ _ now2 => now2
+  | _ => T
+
+/-- the injected clock never goes back (`time.monotonic`): every value read is ≥ the previous one, starting from `T` -/
+def monoFrom {V : Type} (T : Time) : List (Op V) → Prop
+  | [] => True
+  | op :: rest =>
+    (match op with
+     | .get _ now => T ≤ now
+     | .set _ _ _ now1 now2 => T ≤ now1 ∧ now1 ≤ now2
+     | _ => True) ∧ monoFrom (lastTime T op) rest
+
+/-- ghost: `ev k` = "the entry of the latest `set k` was popped by the capacity loop" -/
+def evStep {V : Type} (c : Cfg) (d : List (Entry V)) (ev : String → Bool) (op : Op V) : String → Bool :=
+  match op with
+  | .set k' _ _ _ _ => fun x => (x != k' && ev x) || decide (x ∈ keys (capVictims c d op))
+  | _ => ev
+
+def evRun {V : Type} (c : Cfg) (d : List (Entry V)) (ev : String → Bool) : List (Op V) → String → Bool
+  | [] => ev
+  | op :: ops => evRun c (step c d op).1 (evStep c d ev op) ops
+
+/-- after the history `ops` on a fresh cache, `k`'s latest entry has been evicted for capacity -/
+def evicted {V : Type} (c : Cfg) (ops : List (Op V)) (k : String) : Bool := evRun c [] (fun _ => false) ops k
+
+/-- no call of the history sets a deadline (`ttl` None, 0 or negative) -/
+def noTtl {V : Type} (ops : List (Op V)) : Prop :=
+  ∀ op ∈ ops, match op with | .set _ _ (some t) _ _ => t ≤ 0 | _ => True
+
+/-- `v` was stored under `k` by a `set` that no `clear` followed (what C08's `SoundCache` asks of a cache);
+    moreover that `set` is the latest one of `k` and no `delete k` followed it -/
+def StoredSinceClear {V : Type} (ops : List (Op V)) (k : String) (v : V) : Prop :=
+  ∃ ops1 ttl now1 now2 ops2, ops = ops1 ++ Op.set k v ttl now1 now2 :: ops2 ∧ Op.clear ∉ ops2
+    ∧ Op.delete k ∉ ops2 ∧ ∀ v' ttl' n1 n2, Op.set k v' ttl' n1 n2 ∉ ops2
+
 end Rbacx.Cache
